@@ -5,7 +5,8 @@ ENV_SET = [(b'HOME', b'/home/q'), (b'USER', b'q lib'), (b'QV_EMPTY', b''), (b'QV
 ENV_NAMES = [n for n, _ in ENV_SET] + [b'QV_UNSET']
 
 
-SECT_OPEN = re.compile(rb'^([ \t]*<[A-Za-z0-9_]+(?:[ \t]+[A-Za-z0-9_.]+)*)>([ \t\r]*)$', re.M)
+SECT_OPEN = re.compile(rb'^([ \t]*</?[A-Za-z0-9_]+(?:[ \t]+(?:[A-Za-z0-9_.]+|"[A-Za-z0-9_. ]*"|\'[A-Za-z0-9_. ]*\'))*)>([ \t\r]*)$', re.M)
+GT_BLANKS = [b' ', b'\t', b'  ', b' \t ', b'\t\t', b' ']
 
 
 def env_ops():
@@ -236,11 +237,11 @@ def run(ctx, replay=None):
             continue
         # one case in five: the same parser object parses the same file twice and the second run is the one compared
         ops.append('%s %d %d %s %s' % ('acr' if i % 5 == 3 else 'ac', c[0], c[1], enc_table(c[2]), text)); exp.append((i, e))
-        # the same accepted document with ONE blank (or tab) between a bare last word of a section tag and its '>' ("<Host a >"): the blank
-        # belongs to no argument, so the callbacks are those of the document as generated (search input; judged against the specification's
-        # answer for the generated form)
+        # the same accepted document with blanks / tabs between the last word of a section tag (open or close, bare or quoted) and its '>'
+        # ("<Host a >", "<Host 'a'  >", "</Host >"): they belong to no argument, so the callbacks are those of the document as generated
+        # (search input; judged against the specification's answer for the generated form)
         if not e.startswith('-1') and wf == 'wf':
-            t2 = SECT_OPEN.sub(lambda mo: mo.group(1) + (b' ' if (i + len(mo.group(1))) % 3 else b'\t') + b'>' + mo.group(2), unhex(text))
+            t2 = SECT_OPEN.sub(lambda mo: mo.group(1) + GT_BLANKS[(i + len(mo.group(1))) % len(GT_BLANKS)] + b'>' + mo.group(2), unhex(text))
             if t2 != unhex(text):
                 ctx.count('aconf-generated:blank-before-gt')
                 ops.append('ac %d %d %s %s' % (c[0], c[1], enc_table(c[2]), hx(t2))); exp.append((i, e))
